@@ -20,3 +20,37 @@ def pipeline_contracts(ctx, with_layer_search=True):
         tasks += [layer.task_segD(n, m) for n in range(2, 7) for m in sorted({1, n})]
         tasks += [layer.task_to_circuit(n) for n in (2, 6)]
     symrun.run(ctx, tasks, label="pipeline-prerequisites")
+    if with_layer_search:
+        rigid_class_completeness(ctx)
+
+
+def rigid_class_completeness(ctx):
+    """GROUND witness family behind the segment contracts: in a class without local symmetry every one of the 6^n members has exactly ONE local-Clifford layer onto the
+    representative graph, so a search that skips any candidate (weight filters, bucket ranges, sentinels) fails on some member.  All 6^5 members of one rigid 5-qubit
+    class; uniform, one-deviation and seeded members of the 6-ring class."""
+    import itertools, random
+    from . import core
+    from .checks import c16
+    from .oracle import graphs as G
+    rnd = random.Random(ctx.seed + 1610)
+    jobs, tags = [], []
+    g5 = c16.rigid_graphs(5)[0]
+    for ch in core.chunked(list(itertools.product(range(6), repeat=5)), 128):
+        jobs.append((5, g5, ch))
+        tags.append((5, True))
+    n = 6
+    ring = G.id_from_adj(6, G.adj_from_edges(6, [(i, (i + 1) % 6) for i in range(6)]))
+    layers = [tuple([u] * n) for u in range(6)] + [tuple(u if q != p else v for q in range(n)) for u in range(6) for p in range(n) for v in range(6) if v != u]
+    layers += [tuple(rnd.randrange(6) for _ in range(n)) for _ in range(60)]
+    for ch in core.chunked(layers, 32):
+        jobs.append((6, ring, ch))
+        tags.append((6, False))
+    for (n, exh), res in zip(tags, core.pmap(c16.rigid_job, jobs, chunks=1)):
+        for famname, ok, key, what, rp in res:
+            name = famname.replace("C16.ground.rigid_class.", f"{ctx.pid}.find_layer.rigid_class.") + f".n{n}" + ("" if exh else ".structured_members")
+            fam = ctx.family(name, core.GROUND if exh else core.BOUNDED, "native+oracle", "members of a class without local symmetry: the layer search finds the single existing layer")
+            fam.exhaustive = exh
+            fam.domain = ("ALL 6^5 local-Clifford images of a rigid 5-qubit graph state" if exh else "uniform, one-deviation and seeded local-Clifford images of the 6-ring graph state")
+            ctx.record(fam, core.PROVED if ok else core.REFUTED, rp if fam.total < 2 else None)
+            if not ok:
+                ctx.violate(fam, key.replace("C16", ctx.pid), what, rp)
